@@ -5,7 +5,7 @@ META = dict(
     category='model_checking',
     engine='Repo',
     technique='TLA+ spec Repo.MergeHeads (transcription of merge_view, record_rewrites, merge_wc_commit + rebase_descendants) + contract MergeOK: TLC on the model; TLC-judged log of real reconciliations (I->S); TLC-generated behaviours replayed through RepoLoader::merge_operations (S->I)',
-    text='Contract MergeOK on every reconciled view (base, self side, other side, result): every commit either side created is visible or rewritten (per the merged operation\'s predecessor records) into a visible commit of its change, the only exemption being a discardable working-copy commit left behind; commits a side rewrote/abandoned are hidden (except below a divergent rewrite); per bookmark: changed on one side => that side\'s value (pushed through the other side\'s rewrites), changed identically => that value, changed differently => RefMergeOK of C12 (conflict holding both, or the fast-forward), never one side silently; working copies: the changing side\'s value followed through rewrites, both changed => one of the two with the other commit still there. TLC checks the transcription on the bounded machine (transactions started from any operation, both merge orders) and generates behaviours replayed exactly; the driver reconciles random concurrent pairs (load_at_head and merge_operations, both orders), triples (nested, random order) and criss-cross histories.',
+    text='Contract MergeOK on every reconciled view (base, self side, other side, result): every commit either side created is visible or rewritten (per the merged operation\'s predecessor records) into a visible commit of its change, the only exemption being a discardable working-copy commit left behind; commits a side rewrote/abandoned are hidden (except below a divergent rewrite); per bookmark: changed on one side => that side\'s value (pushed through the other side\'s rewrites), changed identically => that value, changed differently => RefMergeOK of C12 (conflict holding both, or the fast-forward), never one side silently; working copies: the changing side\'s value followed through rewrites, both changed => one of the two with the other commit still there. TLC checks the transcription on the bounded machine (transactions started from any operation, both merge orders) and generates behaviours replayed exactly; the driver reconciles random concurrent pairs (load_at_head and merge_operations, both orders), triples (nested pairs, or ONE merge_operations call over three/four heads), nested forks (heads forked from different operations: A->B, A->X->C, X->D[, C->E, C->G], every order of three heads and six orders of four as scripted cases in every run plus random ones; the n-way result is judged as the last pair step against the pairwise intermediate) and criss-cross histories.',
     note='Criss-cross reconciliations are judged for ViewOK and predecessor records only (their virtual base view is internal). Concurrent sides reparent commits only onto their own ancestors (a cross-side cycle has no right answer). Tags/remote refs/git refs not modelled. Merge-order independence is not claimed.',
     design='4 C13',
 )
